@@ -500,6 +500,21 @@ func rulesC17(c *Ctx) {
 			if !hasAtom(pg.GuardsAt(pg.VertexOf(r)), func(a Atom) bool { return AtomSaysNil(a, false, func(e ast.Expr) bool { return pl.ObjOf(e) == ev }) }) {
 				continue
 			}
+			// the error tested is still the decode's: no later assignment of that variable lies between the call and this return
+			otherWrite := func(u int) bool {
+				if u == dv[0] {
+					return false
+				}
+				for _, w := range Writes(pg.Node(u), false) {
+					if pl.ObjOf(w.LHS) == ev {
+						return true
+					}
+				}
+				return false
+			}
+			if reach, _ := pg.reach(pg.succ[dv[0]], func(u int) bool { return pg.Node(u) != nil && otherWrite(u) }, nil); !reach[pg.VertexOf(r)] {
+				continue
+			}
 			if pl.WrapsObj(r.Results[1], eIP) {
 				okMap = true
 				continue
